@@ -1,5 +1,5 @@
 import slayer
-from props.scommon import scen, preempt_scenario, pp_exact_fit_scenario
+from props.scommon import scen, preempt_scenario, pp_exact_fit_scenario, pp_cutoff_scenario
 """C12 - priority: strict priority order, work conservation, query-only preemption"""
 
 
@@ -8,6 +8,8 @@ def scenarios(ctx, n):
     s = ctx.seed * 7919
     for i in range(n // 2):
         yield preempt_scenario(s + i)
+    for i in range(max(6, n // 10)):
+        yield pp_cutoff_scenario(s + i)
 
 
 def run(ctx):
